@@ -365,10 +365,20 @@ class DocGen:
             if kind == "subscription":
                 f = None
                 for _ in range(8):
+                    snap = (dict(self.vars), {k2: set(v2) for k2, v2 in self.uses.items()},
+                            {k2: set(v2) for k2, v2 in self.spreads.items()})
                     f = self.gen_field(root, scope, 1)
                     if f.name != "__typename" and not f.directives:
                         break
+                    # discard the attempt together with the variables / spreads it registered
                     scope.clear()
+                    self.vars, self.uses, self.spreads = snap
+                if f.name == "__typename" or f.directives:
+                    fname = next(iter(self.s.fields_of(root)))
+                    fd = self.s.fields_of(root)[fname]
+                    f = Field(fname, None, self.gen_args(fd.args))
+                    if self.s.is_composite(named(fd.type)):
+                        f.sels = [Field("__typename")]
                 op.sels = [f]
             else:
                 op.sels = self.gen_selset(root, scope, 1)
